@@ -904,6 +904,7 @@ func TestC12(t *testing.T) {
 	// a needed frame that the installed program hides
 	c12SiteSearch(t, rep, orc, base, siteFrames)
 	c12Compose(t, rep, rng, kern, env.Scale(6, 60))
+	c12SourceStream(t, rep, rng, env.Scale(400, 6000))
 
 	// generator self-check: every decision class of every filter was exercised
 	want := []string{
